@@ -421,6 +421,9 @@ pub fn points(tier: Tier) -> Vec<P13> {
 
 /// minimum_receive on the PU route edges: the route executes iff its (exact, by C12) quote reaches the minimum
 pub fn oracle_min_receive(c: &PuCtx, rec: &mut Rec) {
+    if c.post_malformed() {
+        return;
+    }
     if let PuOp::Route { hops, min: Some(m), .. } = c.op {
         let mut seen = std::collections::BTreeSet::new();
         if !hops.iter().all(|h| seen.insert(h.2.clone())) {
